@@ -255,21 +255,51 @@ def l4(prog, rep):
         if len(r) == 2 and "fee_asset(action)" in r[0]:
             vals.append((r[1], line))
     rep.floor("L4", len(vals), 1, "returned (asset, fee) tuple in utils::fee")
-    rx = re.compile(
-        r"^(?:checked_add|saturating_add|wrapping_add|\()?\(?"
-        r"(?:base\(get_fees\(state\)[^,]*\),\s*(?:checked_|saturating_|wrapping_)?mul\("
-        r"(?:variable_component\(action\),multiplier\(get_fees\(state\)[^,]*\)|"
-        r"multiplier\(get_fees\(state\)[^,]*\),variable_component\(action\))\)"
-        r"|(?:checked_|saturating_|wrapping_)?mul\((?:variable_component\(action\),multiplier\("
-        r"get_fees\(state\)[^,]*\)|multiplier\(get_fees\(state\)[^,]*\),variable_component\("
-        r"action\))\),\s*base\(get_fees\(state\)[^,]*\))")
+    # site-based shape (works for a direct expression and for `mul.and_then(|v| base.add(v))`):
+    # exactly one multiplication variable_component(action) x multiplier(stored fees) and
+    # exactly one addition base(stored fees) + <that product>
+    muls, adds = [], []
+    for b in prog.bodies_of(CA + "utils::fee"):
+        for kind, name, bb, line, roots, dest in arith_sites(b):
+            if kind == "cast":
+                continue
+            rs = [re.sub(r"<(Ready|Continue|Some)>\.0", "", r) for r in roots]
+            if "mul" in name.lower():
+                muls.append((b, name, rs, line))
+            elif "add" in name.lower() and not all(r.startswith("const(") or re.match(r"^_\d+$", r) for r in rs):
+                adds.append((b, name, rs, line))
+    is_var = lambda r: r == "variable_component(action)"
+    is_mult = lambda r: re.fullmatch(r"multiplier\((get_fees\(state\)|fees)\)", r) is not None
+    is_base = lambda r: re.fullmatch(r"base\((get_fees\(state\)|fees)\)", r) is not None
+    good_mul = [m for m in muls if len(m[2]) == 2 and
+                ((is_var(m[2][0]) and is_mult(m[2][1])) or (is_var(m[2][1]) and is_mult(m[2][0])))]
+    rep.check(len(muls) == 1 and len(good_mul) == 1, "L4", "fee:variable*multiplier",
+              f"fee() multiplies {[m[2] for m in muls]}; expected exactly variable_component(action) "
+              f"x multiplier(stored fee components)", body.describe(),
+              detail=str([m[2] for m in muls]))
+    def is_product(r, b):
+        if "mul(" in r and "variable_component(action)" in r:
+            return True
+        # closure parameter of a closure passed to and_then on the product
+        if b is not body and re.fullmatch(r"\w+", r):
+            for c in body.calls:
+                if c.matches(r"Option::<T>::and_then$|Result::<T, E>::and_then$") and \
+                        "mul(" in body.root(c.args[0]) and b.name in body.root(c.args[1]):
+                    return True
+        return False
+    good_add = [a for a in adds if len(a[2]) == 2 and
+                ((is_base(a[2][0]) and is_product(a[2][1], a[0])) or
+                 (is_base(a[2][1]) and is_product(a[2][0], a[0])))]
+    rep.check(len(adds) == 1 and len(good_add) == 1, "L4", "fee:base+product",
+              f"fee() adds {[a[2] for a in adds]}; expected exactly base(stored fee components) + "
+              f"(variable_component x multiplier)", body.describe(), detail=str([a[2] for a in adds]))
     for v, line in vals:
         norm = re.sub(r"<(Ready|Continue|Some)>\.0", "", v)
-        norm = re.sub(r"\s+(Add|Mul)\s+", ",", norm)
-        rep.check(bool(rx.search(norm)), "L4", "fee=base+variable*multiplier",
-                  f"fee is computed as `{norm[:160]}`, not base + variable_component x "
-                  f"multiplier of the action's stored fee components", f"{body.file}:{line}",
-                  detail=norm[:140])
+        rep.check("mul(" in norm and "variable_component(action)" in norm or
+                  ("Mul" in norm and "variable_component(action)" in norm), "L4",
+                  "fee:returned-amount-is-that-sum",
+                  f"fee() returns `{norm[:140]}`, which does not derive from the fee formula",
+                  f"{body.file}:{line}", detail=norm[:120])
     # pay_fees_and_execute hands its own tx_signer parameter to every pay_fee
     body = prog.main_body(PFE)
     pf = _calls(body, PAYFEE)
